@@ -858,6 +858,10 @@ class MessageManager(ClientLike):
             module (Module): Module object to send info for
         """
         self.logger.debug("CLIENT_INFO")
+        # the module may have been removed in the meantime (the answer to its request, or a log
+        # line about it, could not be delivered to it): a departed module is not announced again
+        if module.conn not in self.modules:
+            return
         msg = cd.MDF_CLIENT_INFO()
         msg.uid = module.uid
         msg.pid = module.pid
@@ -913,9 +917,7 @@ class MessageManager(ClientLike):
         if msg_type == cd.MT_CONNECT or msg_type == cd.MT_CONNECT_V2:
             if self.connect_module(src_module, self.message):
                 self.send_ack(src_module)
-                # the acknowledgement may have failed: a module that was removed is not announced
-                if src_module.conn in self.modules:
-                    self.send_client_info(src_module)
+                self.send_client_info(src_module)
                 if msg_type == cd.MT_CONNECT:
                     self.logger.info(f"CONNECT - {src_module!s}")
                 else:
